@@ -47,6 +47,17 @@ thread_local! {
     static FIRED: Cell<Option<Point>> = const { Cell::new(None) };
     static CB_LOGS: RefCell<Vec<Vec<(u16, u32)>>> = RefCell::new(Vec::new());
     static DROPS: Cell<u64> = const { Cell::new(0) };
+    static DROP_LOG_ON: Cell<bool> = const { Cell::new(false) };
+    static DROP_LOG: RefCell<Vec<(bool, u32)>> = RefCell::new(Vec::new());
+}
+
+/// record the order in which keys (true, payload) and values (false, token) are dropped
+pub fn set_drop_log(on: bool) {
+    DROP_LOG_ON.with(|d| d.set(on));
+    DROP_LOG.with(|l| l.borrow_mut().clear());
+}
+pub fn take_drop_log() -> Vec<(bool, u32)> {
+    DROP_LOG.with(|l| std::mem::take(&mut *l.borrow_mut()))
 }
 
 /// reserve the per-thread registries once, so their growth never shows up in block counts
@@ -82,6 +93,8 @@ pub fn reset_case() {
     FIRED.with(|f| f.set(None));
     CB_LOGS.with(|l| l.borrow_mut().clear());
     DROPS.with(|d| d.set(0));
+    DROP_LOG_ON.with(|d| d.set(false));
+    DROP_LOG.with(|l| l.borrow_mut().clear());
 }
 
 pub fn bad(s: String) {
@@ -159,7 +172,11 @@ fn rd(m: &u32) -> u32 {
     unsafe { std::ptr::read_volatile(m) }
 }
 
-fn on_drop(what: &str, id: u32, epoch: u32, magic: &mut u32) {
+fn on_drop(what: &str, id: u32, epoch: u32, magic: &mut u32, payload: u32) {
+    if DROP_LOG_ON.with(|d| d.get()) {
+        let is_key = what == "key";
+        DROP_LOG.with(|l| l.borrow_mut().push((is_key, payload)));
+    }
     let m = rd(magic);
     if m != LIVE {
         bad(format!("drop of a non-live {what} (magic={m:#x}, id={id})"));
@@ -286,7 +303,7 @@ impl Clone for TKey {
 }
 impl Drop for TKey {
     fn drop(&mut self) {
-        on_drop("key", self.id, self.epoch, &mut self.magic);
+        on_drop("key", self.id, self.epoch, &mut self.magic, self.p as u32);
     }
 }
 impl Clone for TVal {
@@ -298,7 +315,7 @@ impl Clone for TVal {
 }
 impl Drop for TVal {
     fn drop(&mut self) {
-        on_drop("value", self.id, self.epoch, &mut self.magic);
+        on_drop("value", self.id, self.epoch, &mut self.magic, self.tok);
     }
 }
 impl std::fmt::Debug for TKey {
